@@ -74,7 +74,7 @@ func runSeed(base uint64, prop string, idx int) uint64 {
 // per run and is a function of the run's seed, so that a replay sees the same value.  The simulated
 // schedule does not depend on it (one task runs at a time); code that sizes pools, semaphores or
 // work splits from GOMAXPROCS does.
-func procsFor(seed uint64) int { return []int{1, 1, 2, 16}[(seed>>9)%4] }
+func procsFor(seed uint64) int { return []int{1, 1, 2, 16, 3, 6, 1, 12}[(seed>>9)%8] }
 
 func runOnce(eng Engine, rc *RunCtx) (o *Outcome) {
 	runtime.GOMAXPROCS(procsFor(rc.Seed))
